@@ -8,6 +8,7 @@ line is a machinery failure.
 from __future__ import annotations
 
 import json
+import re
 from pathlib import Path
 
 from . import tlc
@@ -75,8 +76,33 @@ def _validate_one(module, tag, traces, *, constants, workers, timeout, extra_env
     env = {"TRACE_FILE": str(path)}
     if extra_env:
         env.update(extra_env)
-    res = tlc.run_model(module, tag, constants=constants, invariants=list(invariants), env=env,
-                        workers=workers, timeout=timeout, extra_defs=extra_defs, spec=spec)
+    # An observation so far out of range that a clause's arithmetic leaves 32 bits (only possible for grossly wrong
+    # values: the recorders normalise every field) rejects that trace; it is removed and the rest is validated again.
+    overflowed = {}
+    sent_all = sent
+    alive = list(range(len(sent_all)))
+    for _attempt in range(25):
+        try:
+            res = tlc.run_model(module, tag, constants=constants, invariants=list(invariants), env=env,
+                                workers=workers, timeout=timeout, extra_defs=extra_defs, spec=spec)
+            break
+        except tlc.TLCError as exc:
+            msg = str(exc)
+            m_t = re.search(r"/\\ tid = (\d+)", msg)
+            m_l = re.search(r"/\\ l = (\d+)", msg)
+            if "Overflow" not in msg or not m_t:
+                raise
+            k = int(m_t.group(1)) - 1
+            overflowed[alive[k]] = int(m_l.group(1)) if m_l else 1
+            del alive[k]
+            if not alive:
+                res = None
+                break
+            path.write_text(json.dumps([sent_all[i] for i in alive]))
+    else:
+        raise tlc.TLCError(f"more than 25 traces of {tag} overflow 32-bit arithmetic")
+    if res is None:
+        return [[(overflowed[i], "ANY:observation_out_of_32bit_range")] for i in range(len(sent_all))], tlc.TLCResult(ok=True)
     if res.violated:
         raise tlc.TLCError(f"trace spec {module} reported an invariant violation {res.violated} (see {res.out_path})")
     ok = set()
@@ -88,15 +114,26 @@ def _validate_one(module, tag, traces, *, constants, workers, timeout, extra_env
             ok.add(int(t[1]))
         elif t[0] == "FAIL":
             fails.setdefault(int(t[1]), []).append((int(t[2]), str(t[3])))
-    verdicts = []
-    for i in range(1, len(traces) + 1):
-        if i in fails:
-            verdicts.append(sorted(set(fails[i])))
-        elif i in ok:
-            verdicts.append([])
+    by_alive = {}
+    for pos in range(1, len(alive) + 1):
+        if pos in fails:
+            by_alive[alive[pos - 1]] = sorted(set(fails[pos]))
+        elif pos in ok:
+            by_alive[alive[pos - 1]] = []
         else:
-            raise tlc.TLCError(f"trace {i} of {tag} has neither OK nor FAIL (see {res.out_path})")
+            raise tlc.TLCError(f"trace {pos} of {tag} has neither OK nor FAIL (see {res.out_path})")
+    verdicts = []
+    for i in range(len(sent_all)):
+        if i in overflowed:
+            verdicts.append([(overflowed[i], "ANY:observation_out_of_32bit_range")])
+        else:
+            verdicts.append(by_alive[i])
     return verdicts, res
+
+
+def belongs(clause: str, pid: str) -> bool:
+    """Clause names carry the property id; an out-of-range observation belongs to whichever property is being checked."""
+    return clause.startswith(pid + ":") or clause.startswith("ANY:")
 
 
 SAT = 2 ** 30
